@@ -439,6 +439,8 @@ def run(ctx):
             variant.setdefault(op, set()).add("fixed")
         if " !wf" in m:
             agrees = False
+        # same value and representation (the hash aside): decides whether a defect is the modelled one
+        same_repr = agrees or any(v.split()[:3] == ires.split()[:3] for v in mv if v.startswith("R "))
         if not agrees:
             nbroken += 1
             if nbroken <= 20:
@@ -454,7 +456,7 @@ def run(ctx):
             continue
         how = "echo '%s' | /verif/build/harness/h_rat   (R/I = FastRational, G = GMP)" % l
         sc = sign_class(op, a, b)
-        tag = "as-modelled" if agrees else "unmodelled"
+        tag = "as-modelled" if same_repr else "unmodelled"
         want = ("%d/%d" % (exp[1].numerator, exp[1].denominator)) if exp[0] == "q" else str(exp[1])
         if gres not in ("-", "G " + want, "G undef") and pi[0] != "CRASH":
             ctx.tie_broken("reference-disagreement", "GMP `%s` vs python `%s` on `%s`" % (gres, want, l), dict(case=l))
